@@ -9,7 +9,7 @@ kernel-shaped generator below; they run through the directory harness and the Le
 
 Replay of a kernel disagreement:  python3 tools/props/c14_asm.py --replay replay/C14-<n>.ops   (the file names the
 kernel; `bin/check C14 --replay` would use the default library, whose C routine is not the one that failed)."""
-import os, sys, re, glob, json, time, math, random, importlib, collections, shutil
+import json, os, sys, re, glob, json, time, math, random, importlib, collections, shutil
 sys.path.insert(0, os.path.dirname(os.path.dirname(os.path.abspath(__file__))))
 import vlib, asmkern
 from gen_mparams import gen_mparams
@@ -400,15 +400,42 @@ def run_dir(ctx, h, lines, align="0"):
         lines = [l for l in lines[ok_n + 1:] if l.split(" ", 1)[0] not in dead]
     return done, bad
 
+def file_fingerprints(build):
+    """comment-insensitive fingerprints of every kernel source and tuning table under mpn/x86_64 (and mpn/generic/gmp-mparam.h)"""
+    import hashlib
+    out = {}
+    for root, ds, fs in os.walk(os.path.join(build, "mpn", "x86_64")):
+        for f in fs:
+            if f.endswith((".asm", ".as")) or f == "gmp-mparam.h":
+                p = os.path.join(root, f)
+                try: txt = open(p, errors="replace").read()
+                except OSError: continue
+                out[os.path.relpath(p, build)] = hashlib.sha256(txt.encode()).hexdigest()[:16]
+    p = os.path.join(build, "mpn", "generic", "gmp-mparam.h")
+    if os.path.exists(p): out["mpn/generic/gmp-mparam.h"] = hashlib.sha256(open(p, "rb").read()).hexdigest()[:16]
+    return out
+
+FILES_PIN = os.path.join(vlib.VERIF, "pins", "C14_files.json")
+def changed_files(build):
+    """files whose text differs from the fingerprints recorded when the check last passed on the reference tree (pins/C14_files.json):
+    their kernels / tables are examined in EVERY tier, whatever the seed rotation"""
+    try: exp = json.load(open(FILES_PIN))
+    except Exception: return []
+    cur = file_fingerprints(build)
+    return sorted(f for f in cur if exp.get(f) != cur[f])
+
 QUICK_EXTRA_BUDGET_S = 45      # quick tier: after the mandatory tenth, further directories (same rotation order) while the stage is younger than this
 
-def choose_dirs(all_dirs, tier, seed):
-    """-> (mandatory, optional): thorough = everything; quick = '.' (pinned build) + a seed-rotated tenth, the rest optional in rotation order"""
+def choose_dirs(all_dirs, tier, seed, changed=()):
+    """-> (mandatory, optional): thorough = everything; quick = '.' (pinned build) + directories holding a changed kernel file
+    + a seed-rotated tenth, the rest optional in rotation order"""
     if tier != "quick": return list(all_dirs), []
     rest = [d for d in all_dirs if d != "."]
     n = max(1, math.ceil(len(rest) / 10.0)); start = ((seed - 1) * n) % max(1, len(rest))
     order = [rest[(start + j) % len(rest)] for j in range(len(rest))]
-    return (["."] if "." in all_dirs else []) + order[:n], order[n:]
+    must = [d for d in rest if d in changed]
+    mand = (["."] if "." in all_dirs else []) + must + [d for d in order[:n] if d not in must]
+    return mand, [d for d in order[n:] if d not in must]
 
 def kernel_stage(ctx, cov):
     t0 = time.time()
@@ -428,7 +455,14 @@ def kernel_stage(ctx, cov):
             open(p, "w").write("# property %s stage asm-kernel\n# kernel: %s does not assemble with the repo's own rule\n# command (cwd <build>/mpn): %s\n# %s\n" % (ctx.pid, k.path, k.cmd, (k.error or "").replace("\n", "\n# ")))
             out.append(("kernel %s does not assemble: %s" % (k.path, (k.error or "")[:200]), p))
     all_dirs = sorted(set(k.dir for k in ks if k.executable and k.funcs))
-    dirs, optional = choose_dirs(all_dirs, ctx.tier, ctx.seed)
+    chg = changed_files(ctx.build)
+    chg_dirs = set()
+    for f in chg:
+        if f.endswith((".asm", ".as")):
+            dd = os.path.relpath(os.path.dirname(f), os.path.join("mpn", "x86_64"))
+            chg_dirs.add("." if dd == "." else dd)
+    kc["changed_kernel_files"] = [f for f in chg if f.endswith((".asm", ".as"))]
+    dirs, optional = choose_dirs(all_dirs, ctx.tier, ctx.seed, chg_dirs)
     kc["directories"] = all_dirs; kc["directories_mandatory"] = list(dirs)
     hs = asmkern.dir_harnesses(ctx.build, ks, dirs + optional)
     for h in hs:
@@ -664,11 +698,15 @@ def run_variant(ctx, var, jobs, cov):
     return out
 
 def rebuild_stage(ctx, cov):
-    if ctx.tier != "thorough": 
-        cov["rebuilds"] = {"skipped": "thorough tier only (one library build per shipped gmp-mparam.h and per configure option)"}
-        return []
     from concurrent.futures import ThreadPoolExecutor
     vs = variants(ctx); par = 4; jobs = max(2, vlib.NPROC // par)
+    if ctx.tier != "thorough":
+        chg = [f for f in changed_files(ctx.build) if f.endswith("gmp-mparam.h")]
+        vs = [v for v in vs if v[2] in chg]            # quick tier: only the tuning tables whose text changed since the reference
+        if not vs:
+            cov["rebuilds"] = {"skipped": "thorough tier only (one library build per shipped gmp-mparam.h and per configure option); quick tier rebuilds only tables whose text changed"}
+            return []
+        cov["rebuilds_changed_tables"] = chg
     only = os.environ.get("C14_REBUILD_ONLY")          # debugging aid: comma-separated tags
     if only: vs = [v for v in vs if v[0] in only.split(",")]
     out = []
